@@ -13,9 +13,7 @@ def glyphs : GlyphList := glyphList.map (fun e => (e.1.toList, e.2))
 def rows : List EncRow := ENCODING.map (fun r => (r.1.toList, r.2))
 
 /-- `EncodingDB.encodings` and the default table, built as the class body builds them. -/
-def encDB : EncDB :=
-  { tables := ENCODING_COLUMNS.map (fun e => (e.1, buildTable glyphs e.2 rows [])),
-    default := buildTable glyphs ENCODING_DEFAULT_COLUMN rows [] }
+def encDB : EncDB := EncDB.ofRows glyphs rows ENCODING_COLUMNS ENCODING_DEFAULT_COLUMN
 
 /-- `FONT_METRICS` after the alias assignments at the end of fontmetrics.py. -/
 def metrics : Metrics :=
